@@ -98,6 +98,49 @@ def run(ctx, F):
                   expected="reaches PageAccounting::release or ::reset", found="not reached", detail=str([short(a) for a in acc]), where=where(f),
                   key="C09.release-reaches-pages|acct|" + t)
 
+    # ---- C09.reservation-resolved: a failed acquisition gives its page reservation back on every path (otherwise the pages stay
+    # "reserved" forever and no GC can return them)
+    na = F.fn("policy::space::Space::not_acquiring")
+    cr = [c for c in live_calls(na, name="clear_request")]
+    okc = len(cr) == 1 and na.cfg.must_pass([cr[0].bb]) and strip(na.flow.arg_tree(cr[0], 1)) == ("arg", 5)
+    ctx.judge(okc, "C09.reservation-resolved", "Space::not_acquiring always returns the reservation", expected="pr.clear_request(pages_reserved) on every path (also when not at a safepoint)",
+              found="sites=%d guards=%s" % (len(cr), [guard_strs(na, c.bb) for c in cr]), where=where(na), key="C09.reservation-resolved|clear")
+    acq = F.fn("policy::space::Space::acquire")
+    rs = live_calls(acq, name="reserve_pages")
+    gn = live_calls(acq, name="get_new_pages_and_initialize")
+    nq = live_calls(acq, name="not_acquiring")
+    okr = len(rs) == 1 and bool(gn) and bool(nq) and acq.cfg.must_pass([c.bb for c in gn + nq], start=rs[0].bb, avoid_start=True)
+    for c in nq:
+        okr = okr and "reserve_pages" in show(strip(acq.flow.arg_tree(c, 4)))
+    # on the None arm of get_new_pages_and_initialize the reservation is handed to not_acquiring
+    edges = branch_edges(acq, r"get_new_pages_and_initialize", "None")
+    okr = okr and bool(edges) and all(acq.cfg.must_pass([c.bb for c in nq], start=s) for a, s in edges)
+    ctx.judge(okr, "C09.reservation-resolved", "Space::acquire resolves every reservation", expected="after reserve_pages every path reaches get_new_pages_and_initialize (commit) or not_acquiring(.., pages_reserved, ..)",
+              found="reserve=%d get=%d not_acquiring=%d" % (len(rs), len(gn), len(nq)), where=where(acq), key="C09.reservation-resolved|acquire")
+
+    # ---- C09.all-bins: loops over the size-class bins of the native mark-sweep block lists cover the whole array
+    nb = 0
+    for q, f in F.fns.items():
+        if not (("free_list_allocator" in q or "native_ms" in q) and f.kind != "closure"):
+            continue
+        for i, b in enumerate(f.blocks):
+            if i not in f.cfg.live:
+                continue
+            for j, st in enumerate(b["s"]):
+                if st[0] == "=" and st[2][0] == "agg" and st[2][1].get("adt", "").endswith("ops::Range"):
+                    t = strip(f.flow.rvalue_tree(st[2], i, j))
+                    ends = show(t)
+                    if "MI_BIN" in ends or "MAX_BIN" in ends or "BIN" in ends.upper():
+                        nb += 1
+                        lo, hi = strip(t[2][0]), strip(t[2][1])
+                        okb = const_arg(lo) == 0 and hi and hi[0] == "const" and (hi[3] or "").endswith("MI_BIN_FULL")
+                        ctx.judge(okb, "C09.all-bins", "%s visits every bin" % short(q), expected="for bin in 0..MI_BIN_FULL (the length of the block-list arrays)", found=ends[:80], where=where(f, st[-1]),
+                                  key="C09.all-bins|%s" % q)
+    if "policy::marksweepspace::native_ms::global::MarkSweepSpace::release" in F.fns:
+        ctx.judge(nb >= 3, "C09.all-bins", "bin loops found in the native mark-sweep release path", expected=">= 3", found=str(nb), key="C09.all-bins|count")
+    for ty in ("policy::marksweepspace::native_ms::block_list::BlockLists",):
+        pass
+
     # ---- C09.release-counting (native mark-sweep)
     msr = F.fns.get("policy::marksweepspace::native_ms::global::MarkSweepSpace::release")
     if msr is not None:
